@@ -70,10 +70,6 @@ def region (name : String) (b : Block) : String :=
     | none =>
       if name == "compute_expression" && Rules.ComputeExpression.outsideH driverApi b then
         "out F5 and/or folded to a multi-valued operand"
-      else if name == "convert_index_to_field" && Rules.ConvertIndexToField.outsideH driverApi b then
-        "out F6 converted key has side effects"
-      else if name == "remove_nil_declaration" && Rules.NilDeclaration.outsideH driverApi b then
-        "out F24 reordered declaration repeats a name"
       else if name == "remove_unused_variable" then
         match Rules.UnusedVariable.outsideH driverApi b with
         | some why => "out " ++ why
